@@ -11,7 +11,7 @@ use ark_poly_commit::{LabeledCommitment, LabeledPolynomial, PCCommitterKey, Poly
 use ark_serialize::CanonicalDeserialize;
 use ark_std::rand::Rng;
 
-pub const VERIFIER_KINDS: &[&str] = &["prover-other-trim", "bound-mislabelled", "bound-mislabelled-both", "bound-label-dropped", "shifted-dropped", "shifted-swapped", "shifted-other-bound", "unbounded-gets-label"];
+pub const VERIFIER_KINDS: &[&str] = &["prover-other-trim", "bound-mislabelled", "bound-mislabelled-unenforced", "bound-mislabelled-both", "bound-label-dropped", "shifted-dropped", "shifted-swapped", "shifted-other-bound", "unbounded-gets-label"];
 pub const PROVER_KINDS: &[&str] = &["commit-degree-exceeds-bound", "commit-bound-not-enforced", "commit-no-bounds-in-key", "commit-degree-exceeds-supported", "commit-bound-above-supported", "open-degree-exceeds-bound", "open-bound-not-enforced"];
 
 pub fn generate(run_seed: u64) -> Scenario {
@@ -132,6 +132,17 @@ pub fn run<S: Scheme>(scn: &Scenario, log: &EventLog) -> RunResult {
                         } else {
                             Some(relabel::<S>(&mine, mine.commitment().clone(), Some(d)))
                         }
+                    }
+                }
+                ("bound-mislabelled-unenforced", Some(dp)) => {
+                    // a bound the keys were never trimmed for (Marlin, Sonic): no honest committer can
+                    // have produced it, the verifier has no shift power for it
+                    let cands: Vec<usize> = (1..=cfg.max_degree).filter(|d| *d != dp && !all_bounds.contains(d)).collect();
+                    if cands.is_empty() { None } else {
+                        // prefer bounds below some enforced bound (a neighbouring table entry exists)
+                        let below: Vec<usize> = cands.iter().copied().filter(|d| all_bounds.iter().any(|b| b > d)).collect();
+                        let pool = if !below.is_empty() && f.aux % 4 != 0 { &below } else { &cands };
+                        Some(relabel::<S>(&mine, mine.commitment().clone(), Some(pool[(f.param as usize) % pool.len()])))
                     }
                 }
                 ("prover-other-trim", Some(d)) => {
